@@ -50,6 +50,11 @@ Theorem C07_pipelined_batch_get : forall st snap keys, no_tomb snap -> dsorted f
 Proof. exact C07_pipelined_batch_get_proof. Qed.
 Print Assumptions C07_pipelined_batch_get.
 
+(* Flush(true) is refused exactly when a staging level is open *)
+Theorem C07_pipelined_flush_status : forall st, snd (pstep st PFlush) = 1%nat <-> b_stages (p_mem st) <> [].
+Proof. exact flush_status. Qed.
+Print Assumptions C07_pipelined_flush_status.
+
 (* regression witness (seed C07-6): reading a cached empty value as "not in the flushed store" resurrects a
    key whose deletion has been flushed: Delete(a); Flush; FlushWait; BatchGet([a]); Get(a) over snapshot {a: x} *)
 Theorem C07_pipelined_empty_as_miss_refuted : exists ops snap k,
